@@ -499,3 +499,133 @@ Proof.
       * cbn [cdist]. lra.
       * cbn [ngroups fold_right]. fold (ngroups r). fold (ngroups (s_add_to_cats rnd false c tot cb r)). lia.
 Qed.
+
+(* rows weighted by the number of tax combos they carry *)
+Fixpoint row_weight (bs : list Q) (ts : list (list combo)) : Q :=
+  match bs, ts with
+  | b :: bs', t :: ts' => nQ (length t) * b + row_weight bs' ts'
+  | _, _ => 0
+  end.
+Definition ncombos (ts : list (list combo)) : nat := fold_right (fun t n => (length t + n)%nat) 0%nat ts.
+
+Lemma cshape_refl_nil c : Forall2 (cshape c) [] [].
+Proof. constructor. Qed.
+
+Lemma add_row_close c b r r' cts cts' :
+  Forall2 (cshape c) cts cts' -> cl (b * eps c) (fq (ir_total r)) (fq (ir_total r')) -> ir_taxes r' = ir_taxes r ->
+  Forall combo_ok (ir_taxes r) -> row_prec c r ->
+  Forall2 (cshape c) (s_add_row rnd false c cts r) (s_add_row noround false c cts' r') /\
+  cdist (s_add_row rnd false c cts r) (s_add_row noround false c cts' r')
+    <= cdist cts cts' + nQ (length (ir_taxes r)) * (b * eps c) /\
+  (ngroups (s_add_row rnd false c cts r) <= ngroups cts + length (ir_taxes r))%nat.
+Proof.
+  intros F C E OK PR. unfold s_add_row. rewrite E.
+  destruct PR as [T|W].
+  { rewrite T. cbn [fold_left length]. split; [exact F|]. split; [|lia].
+    setoid_replace (nQ 0 * (b * eps c)) with 0 by (unfold nQ; cbn; ring). lra. }
+  clear E. revert cts cts' F. induction OK as [|cb cbs O _ IH]; intros cts cts' F; cbn [fold_left length].
+  - split; [exact F|]. split; [|lia]. setoid_replace (nQ 0 * (b * eps c)) with 0 by (unfold nQ; cbn; ring). lra.
+  - destruct (add_to_cats_close c (ir_total r) (ir_total r') cb cts cts' F O W) as (A1 & A2 & A3).
+    destruct (IH _ _ A1) as (I1 & I2 & I3). split; [exact I1|]. split; [|lia].
+    rewrite nQ_S. unfold cl in C. lra.
+Qed.
+
+Lemma cats_close c bs rs rs' : rows_close c bs rs rs' -> Forall (row_prec c) rs ->
+  Forall2 (cshape c) (s_cats rnd false c rs) (s_cats noround false c rs') /\
+  cdist (s_cats rnd false c rs) (s_cats noround false c rs') <= row_weight bs (map ir_taxes rs) * eps c /\
+  (ngroups (s_cats rnd false c rs) <= ncombos (map ir_taxes rs))%nat.
+Proof.
+  intros H PR. unfold s_cats.
+  assert (G : forall cts cts', Forall2 (cshape c) cts cts' ->
+     Forall2 (cshape c) (fold_left (s_add_row rnd false c) rs cts) (fold_left (s_add_row noround false c) rs' cts') /\
+     cdist (fold_left (s_add_row rnd false c) rs cts) (fold_left (s_add_row noround false c) rs' cts')
+       <= cdist cts cts' + row_weight bs (map ir_taxes rs) * eps c /\
+     (ngroups (fold_left (s_add_row rnd false c) rs cts) <= ngroups cts + ncombos (map ir_taxes rs))%nat).
+  { induction H as [|b r r' bs rs rs' C E F B _ IH]; intros cts cts' K; cbn [fold_left map row_weight ncombos fold_right].
+    - split; [exact K|]. split; [lra|lia].
+    - inversion PR as [|? ? P1 P2]; subst.
+      destruct (add_row_close c b r r' cts cts' K C E F P1) as (A1 & A2 & A3).
+      destruct (IH P2 _ _ A1) as (I1 & I2 & I3). split; [exact I1|]. split; [|fold (ncombos (map ir_taxes rs)); lia].
+      lra. }
+  destruct (G [] [] (cshape_refl_nil c)) as (G1 & G2 & G3). split; [exact G1|]. split; [|exact G3].
+  cbn [cdist] in G2. lra.
+Qed.
+
+(* group and category amounts, the tax *)
+Lemma rate_abs p q : rate_ok (Some p) -> toQ p = q -> Qabs q <= 1.
+Proof. intros [A B] <-. rewrite Qabs_pos; assumption. Qed.
+
+Lemma group_amounts_close c g g' : gshape c g g' ->
+  cl (Qabs (fq (ig_base g) - fq (ig_base g')) + eps c) (g_amount rnd g) (g_amount noround g') /\
+  cl (Qabs (fq (ig_base g) - fq (ig_base g')) + eps c) (g_surcharge rnd g) (g_surcharge noround g').
+Proof.
+  intros (E & [O1 O2] & W). unfold g_amount, g_surcharge. rewrite E.
+  pose proof (eps_pos c) as EPS. pose proof (Qabs_nonneg (fq (ig_base g) - fq (ig_base g'))) as NN.
+  assert (Z : cl (Qabs (fq (ig_base g) - fq (ig_base g')) + eps c) 0 0) by (eapply cl_weaken; [apply cl_refl|lra]).
+  assert (K : forall p, rate_ok (Some p) ->
+     cl (Qabs (fq (ig_base g) - fq (ig_base g')) + eps c) (fq (prod rnd (ig_base g) (toQ p))) (fq (prod noround (ig_base g') (toQ p)))).
+  { intros p OK. unfold prod. cbn [fq]. unfold noround. apply (cl_rnd_w c); [exact W|].
+    apply cl_mult; [unfold cl; lra|]. eapply rate_abs; [exact OK|reflexivity]. }
+  destruct (cb_pct (ig_cb g)) as [p|]; [|split; exact Z].
+  split; [apply K, O1|]. destruct (cb_sur (ig_cb g)) as [s|]; [apply K, O2|exact Z].
+Qed.
+
+Lemma cat_amounts_close c ct ct' : cshape c ct ct' ->
+  let B := gdist (ic_groups ct) (ic_groups ct') + nQ (length (ic_groups ct)) * eps c in
+  cl B (cat_amount rnd false c ct) (cat_amount noround false c ct') /\
+  cl B (cat_surcharge rnd false c ct) (cat_surcharge noround false c ct').
+Proof.
+  intros (_ & _ & F). cbv zeta. unfold cat_amount, cat_surcharge, contribQ.
+  induction F as [|g g' r r' H _ [IH1 IH2]]; cbn [map sumQl fold_right gdist length].
+  - setoid_replace (0 + nQ 0 * eps c) with 0 by (unfold nQ; cbn; ring). split; apply cl_refl.
+  - destruct (group_amounts_close c g g' H) as [A S]. rewrite nQ_S.
+    setoid_replace (Qabs (fq (ig_base g) - fq (ig_base g')) + gdist r r' + (nQ (length r) + 1) * eps c)
+      with ((Qabs (fq (ig_base g) - fq (ig_base g')) + eps c) + (gdist r r' + nQ (length r) * eps c)) by ring.
+    split; apply cl_plus; assumption.
+Qed.
+
+Lemma tax_close c cts cts' : Forall2 (cshape c) cts cts' ->
+  cl (2 * (cdist cts cts' + nQ (ngroups cts) * eps c)) (s_tax rnd false c cts) (s_tax noround false c cts').
+Proof.
+  intros F. unfold s_tax. induction F as [|ct ct' r r' H _ IH]; cbn [map sumQl fold_right cdist ngroups].
+  - setoid_replace (2 * (0 + nQ 0 * eps c)) with 0 by (unfold nQ; cbn; ring). apply cl_refl.
+  - fold (ngroups r). destruct (cat_amounts_close c ct ct' H) as [A S]. cbv zeta in A, S.
+    pose proof H as (_ & Rt & _).
+    assert (K : cl (2 * (gdist (ic_groups ct) (ic_groups ct') + nQ (length (ic_groups ct)) * eps c))
+                   (cat_signed rnd false c ct) (cat_signed noround false c ct')).
+    { unfold cat_signed. rewrite Rt.
+      setoid_replace (2 * (gdist (ic_groups ct) (ic_groups ct') + nQ (length (ic_groups ct)) * eps c))
+        with ((gdist (ic_groups ct) (ic_groups ct') + nQ (length (ic_groups ct)) * eps c) +
+              (gdist (ic_groups ct) (ic_groups ct') + nQ (length (ic_groups ct)) * eps c)) by ring.
+      destruct (ic_retained ct); [apply cl_opp|]; apply cl_plus; assumption. }
+    unfold nQ. rewrite Nat2Z.inj_add, inject_Z_plus. fold (nQ (length (ic_groups ct))). fold (nQ (ngroups r)).
+    setoid_replace (2 * (gdist (ic_groups ct) (ic_groups ct') + cdist r r' + (nQ (length (ic_groups ct)) + nQ (ngroups r)) * eps c))
+      with (2 * (gdist (ic_groups ct) (ic_groups ct') + nQ (length (ic_groups ct)) * eps c) +
+            2 * (cdist r r' + nQ (ngroups r) * eps c)) by ring.
+    apply cl_plus; assumption.
+Qed.
+
+Lemma cdist_nonneg cts : forall cts', 0 <= cdist cts cts'.
+Proof.
+  induction cts as [|ct r IH]; intros [|ct' r']; cbn [cdist]; try lra.
+  pose proof (gdist_nonneg (ic_groups ct) (ic_groups ct')). specialize (IH r'). lra.
+Qed.
+
+Lemma find_cat_close c code cts cts' : Forall2 (cshape c) cts cts' ->
+  match s_find_cat code cts, s_find_cat code cts' with
+  | Some ct, Some ct' => cl (cdist cts cts' + nQ (ngroups cts) * eps c) (cat_amount rnd false c ct) (cat_amount noround false c ct')
+  | None, None => True
+  | _, _ => False
+  end.
+Proof.
+  intros F. pose proof (eps_pos c) as EPS.
+  induction F as [|ct ct' r r' H Hr IH]; cbn [s_find_cat cdist ngroups fold_right]; [exact I|].
+  fold (ngroups r). pose proof H as (E & _ & _). rewrite E.
+  unfold nQ. rewrite Nat2Z.inj_add, inject_Z_plus. fold (nQ (length (ic_groups ct))). fold (nQ (ngroups r)).
+  pose proof (gdist_nonneg (ic_groups ct) (ic_groups ct')). pose proof (cdist_nonneg r r').
+  pose proof (nQ_nonneg (length (ic_groups ct))). pose proof (nQ_nonneg (ngroups r)).
+  destruct (eqb_bytes (ic_code ct) code).
+  - destruct (cat_amounts_close c ct ct' H) as [A _]. cbv zeta in A. eapply cl_weaken; [exact A|nra].
+  - destruct (s_find_cat code r); destruct (s_find_cat code r'); try contradiction; [|exact I].
+    eapply cl_weaken; [exact IH|nra].
+Qed.
